@@ -45,10 +45,13 @@ def widthOf (typ : Nat) : Width :=
 (`originType` when the description was changed) -/
 def extractData (typ : Nat) (row : Bytes) (pos : Nat) : Out (Bytes × Nat) :=
   match widthOf typ with
-  | .fixed k => do
+  | .fixed k =>
+    -- a fixed-width value must lie inside the row (`ErrMalformPacket`, after the `fix:`)
+    if pos > row.length ∨ k > row.length - pos then .err else do
     let v ← goSlice row pos (pos + k)
     pure (v, k)
-  | .lenenc => do
+  | .lenenc =>
+    if pos > row.length then .err else do
     let rest ← goSliceFrom row pos
     let (v, n) ← lengthEncodedString rest
     pure (v.getD [], n)
@@ -71,7 +74,14 @@ def processBinCols (g : Nat → Bytes → Out Bytes) (bitmap : Bytes) (row : Byt
       processBinCols g bitmap row ts (i+1) (pos + n) (out ++ v')
 
 /-- `processBinaryDataRow(ctx, rowData, fields)`; `types` are the storage types of the fields -/
-def binRow (g : Nat → Bytes → Out Bytes) (types : List Nat) (row : Bytes) : Out Bytes := do
+def binRow (g : Nat → Bytes → Out Bytes) (types : List Nat) (row : Bytes) : Out Bytes :=
+  -- an empty row, or one without room for the NULL bitmap, is malformed (after the `fix:`)
+  if row.length = 0 ∨ row.length < 1 + ((types.length + 7 + 2) >>> 3) then
+    (if row.length = 0 then .err
+     else match row.head? with
+      | some b0 => if b0.toNat = Generated.Wire.myEOFPacket then .ok row else .err
+      | none => .err)
+  else do
   let b0 ← goIndex row 0
   if b0.toNat = Generated.Wire.myEOFPacket then pure row
   else if b0.toNat ≠ Generated.Wire.myOkPacket then .err
